@@ -249,7 +249,7 @@ func runC07(c *Ctx) {
 	c.panicRule("T5", fns, map[string]string{})
 	c.sentinelRule("T10", fns)
 	c.lenMinusRule("T11", fns, map[string]string{
-		"extract/eventlog.ucs2toUTF8": "indexes the output of an external UTF-16 decoder; non-empty because the only producer of its argument (variableLocatorDecode, checked by this rule) yields an even length ≥ 4 and every code unit decodes to ≥ 1 byte — a numeric fact about x/text that no rule here can derive",
+		"golang.org/x/text/transform.Bytes": "indexes the output of an external UTF-16 decoder; non-empty because the only producer of its argument (variableLocatorDecode, checked by this rule) yields an even length ≥ 4 and every code unit decodes to ≥ 1 byte — a numeric fact about x/text that no rule here can derive",
 	})
 	c.widenAfterArithRule("T12", fns)
 	c.foreignBoundSliceRule("T13", fns)
